@@ -6,7 +6,10 @@ import logging
 import os
 import sys
 
-logging.disable(logging.CRITICAL)
+# nothing is printed by the code under test (its log records are made and thrown away), but logging is NOT disabled:
+# part of the runs switch debug logging on, and what the code does must not depend on it
+logging.getLogger().addHandler(logging.NullHandler())
+logging.lastResort = None
 
 
 def main() -> int:
